@@ -16,6 +16,7 @@ func TestC08(t *testing.T) {
 	p.StructFieldRefs = envInt("VERIF_ALLOW_K2", 1) == 1
 	p.PreferProduced = 70
 	p.ForeachFailures = true
+	p.ObserveStageOutputs = true
 	runProperty(t, "C08",
 		func(rt *rapid.T) *vcase.Case { return vcase.GenCase(rt, p, "C08") },
 		func(st *Stats, c *vcase.Case) string {
